@@ -1525,6 +1525,21 @@ Library read_oas(const char* filename, double unit, double tolerance, ErrorCode*
                             cell->properties = cell_name->properties;
                             cell_name->properties = NULL;
                         }
+                    } else {
+                        // Name given in the CELL record itself: properties of a CELLNAME record
+                        // with the same name still belong to this cell
+                        ByteArray* cell_name = cell_name_table.items;
+                        for (uint64_t j = cell_name_table.count; j > 0; j--, cell_name++) {
+                            if (cell_name->properties == NULL || cell_name->bytes == NULL ||
+                                strcmp((char*)cell_name->bytes, cell->name) != 0)
+                                continue;
+                            Property* last = cell_name->properties;
+                            while (last->next) last = last->next;
+                            last->next = cell->properties;
+                            cell->properties = cell_name->properties;
+                            cell_name->properties = NULL;
+                            break;
+                        }
                     }
                     map.set(cell->name, cell);
 
